@@ -83,6 +83,9 @@ func (c *Cache) Dump(path string) error {
 	}
 
 	verifPoint("dump:before", path, contents)
+	if werr := verifWriteError(path); werr != nil {
+		return fmt.Errorf("Could not write spok cache at %q: %s", path, werr)
+	}
 	err = os.WriteFile(path, contents, filePerms)
 	if err != nil {
 		return fmt.Errorf("Could not write spok cache at %q: %s", path, err)
